@@ -48,6 +48,7 @@ def register(reg):
   register_sequences(reg)
   register_checkpoints(reg)
   register_stop(reg)
+  reg.replayers['PhaseFailureCheckpoint._check_for_action'] = replay_check_for_action
   for hdr in ('for phase_rec in phase_records',):
     c.loop(hdr, inv=[('none_failed_so_far',
                       'forall_int(lambda j: implies(0 <= j and j < _i, not (%s and (subtest_rec is None or not (self.previous_phases_to_check is %s.SUBTEST) '
@@ -492,3 +493,43 @@ def register_stop(reg):
             'old(self._phase_exec is not None and self._phase_exec._stopping.is_set()))')
   c.ensures('a_forced_stop_always_rearms', 'implies(force and self._phase_exec is not None, not self._phase_exec._stopping.is_set())')
   c.modifies('event.flag', 'TestState.running_phase_state', 'threading.Thread.alive')
+
+
+# --------------------------------------------------------------------------------------------------------------------
+# replay: PhaseFailureCheckpoint._check_for_action on small concrete phase-record lists (the function only reads
+# record.outcome / record.subtest_name / subtest_rec.name)
+# --------------------------------------------------------------------------------------------------------------------
+def replay_check_for_action(model, ob):
+  import itertools, types
+  from openhtf.core import phase_branches, test_record
+  PO_ = test_record.PhaseOutcome
+  PP_ = phase_branches.PreviousPhases
+  out = {'scenarios': []}
+  bad = False
+  kinds = [(PO_.PASS, 'a'), (PO_.FAIL, 'a'), (PO_.PASS, 'b'), (PO_.FAIL, 'b'), (PO_.FAIL, None), (PO_.ERROR, 'a')]
+  for n in (1, 2, 3):
+    for combo in itertools.product(kinds, repeat=n):
+      recs = [types.SimpleNamespace(outcome=o, subtest_name=s) for o, s in combo]
+      state = types.SimpleNamespace(test_record=types.SimpleNamespace(phases=recs))
+      for prev in (PP_.LAST, PP_.ALL, PP_.SUBTEST):
+        for sub in (None, 'a'):
+          cp = phase_branches.PhaseFailureCheckpoint('cp', previous_phases_to_check=prev)
+          subtest = None if sub is None else types.SimpleNamespace(name=sub)
+          failed = lambda r: r.outcome is PO_.FAIL
+          if prev is PP_.LAST:
+            want = failed(recs[-1])
+          elif prev is PP_.SUBTEST and subtest is not None:
+            want = any(r.subtest_name == sub and failed(r) for r in recs)
+          else:
+            want = any(failed(r) for r in recs)
+          try:
+            got = cp._check_for_action(state, subtest)
+          except Exception as e:   # pylint: disable=broad-except
+            got = type(e).__name__
+          if got != want:
+            bad = True
+            if len(out['scenarios']) < 5:
+              out['scenarios'].append({'phase records (outcome, subtest)': [(o.name, s) for o, s in combo], 'checks': prev.name,
+                                       'current subtest': sub, 'prescribed': want, 'actual': got})
+  out['reproduced'] = bad
+  return out
